@@ -78,7 +78,17 @@ fn check_path(stats: &mut Stats, rng: &mut Rng, path: &P, kind: &str, n_points: 
     let rot = rotate_start(path, 1 + rng.i(verts.len().max(1) as u64) as usize);
     for k in 0..n_points {
         // query points: uniform in and around the box; level with a vertex; level with both (on the lines through vertices)
-        let (p, pclass) = match k % 6 {
+        let (p, pclass) = match k % 7 {
+            6 => {
+                // 0.15 .. 1.0 from the boundary, on either side (a tolerance relative to the ray length shows here on large shapes)
+                let c = &cs[rng.i(cs.len() as u64) as usize];
+                let t = rng.r(0.05, 0.95);
+                let (a, b) = (bez(c, t - 0.01), bez(c, t + 0.01));
+                let d = b - a; let l = len(d);
+                if l < 1e-9 { (Coord2(rng.r(mn.0, mx.0), rng.r(mn.1, mx.1)), "uniform") } else {
+                    (bez(c, t) + Coord2(-d.1 / l, d.0 / l) * (rng.r(0.15, 1.0) * if rng.b() { 1.0 } else { -1.0 }), "0.15_to_1.0_from_boundary")
+                }
+            }
             5 => {
                 // the ray passes a vertex at 0.1 .. 0.3 and ends beyond it
                 let v = verts[rng.i(verts.len() as u64) as usize];
@@ -145,6 +155,8 @@ pub fn search(seed: u64, n: u64) {
     for _ in 0..n {
         let s = rand_shape(&mut rng);
         let p = redirect(&mut rng, &s.path);
+        // one shape in five is scaled up by 50 .. 200 (coordinates up to 2e4): absolute and relative tolerances part company there
+        let p = if rng.i(5) == 0 { let k = rng.r(50.0, 200.0); stats.count("scaled_50_to_200"); let (sp, pts) = p; (sp * k, pts.into_iter().map(|(a, b, c)| (a * k, b * k, c * k)).collect()) } else { p };
         stats.count(&format!("kind.{}", s.kind));
         stats.case(&format!("{} {:?}", s.kind, p), true);
         check_path(&mut stats, &mut rng, &p, s.kind, 100);
